@@ -121,3 +121,27 @@ pub fn run(case: &Value) -> Vec<Value> {
     }
     out
 }
+
+/// C16 on lexeme-structured documents: the real token sequence (type, tag name, raw text) of a document of
+/// BodyCases.tla, to be compared with the specification's Scan
+pub fn run_lex(case: &Value) -> Vec<Value> {
+    let body: Vec<u8> = case["doc"].as_array().unwrap().iter().flat_map(|l| l["us"].as_array().unwrap().iter().flat_map(|u| crate::body::concretise(u.as_str().unwrap())).collect::<Vec<u8>>()).collect();
+    let n = body.len();
+    let mut t = Tokenizer::new(body);
+    let mut toks = Vec::new();
+    for _ in 0..(n + 2) {
+        match t.next() {
+            Ok(TokenType::ErrorToken) | Err(_) => break,
+            Ok(tt) => {
+                let raw = crate::body::lossy(&t.raw());
+                let name = match tt {
+                    TokenType::StartTagToken | TokenType::EndTagToken | TokenType::SelfClosingTagToken => t.tag_name().ok().and_then(|(n, _)| n).unwrap_or_default(),
+                    _ => String::new(),
+                };
+                toks.push(json!({"t": ty(tt), "n": name, "raw": raw}));
+            }
+        }
+    }
+    let held = crate::body::lossy(&{ let mut v = t.raw(); v.extend(t.buffered()); v });
+    vec![json!({"ev": "lex", "doc": case["doc"], "toks": toks, "held": held})]
+}
